@@ -4,7 +4,8 @@
 //
 // Usage: c03 <seed> <ncases> <mode> [stimuliPerCase]
 //   mode: op    one frontend operator on fresh input pins (widths 0..200)
-//         dag   random expression DAG of depth <= 6 over input pins
+//         dag   random expression DAG of depth <= 6 over input pins (dags: narrow widths); one case in three is simulated a second
+//               time after design.postprocess() on the same stimuli (every expression tapped by an output pin)
 //         const expression DAG over literal operands: construction-time evaluation (simu(x).eval()) vs run-time simulation
 //         lit   literal parsing
 //         conc  (C08) DAG under an abstract stimulus and sampled concretisations of its undefined bits
@@ -453,7 +454,72 @@ struct Builder {
 	static const std::vector<std::string> &binV() { static std::vector<std::string> v = {"and","or","xor","nand","nor","xnor","eq","neq"}; return v; }
 
 	// one random operator application; `dag` = operands may be earlier values. returns index or -1
+	// print one value line for a value produced outside apply()
+	void emitVal(int idx, const std::string &op, const std::vector<int> &args, const std::vector<uint64_t> &params) {
+		o << "v " << idx << ' ' << op;
+		for (int a : args) o << " a" << a;
+		for (auto p : params) o << ' ' << p;
+		o << " -> " << vals[idx]->t << ' ' << vals[idx]->w << ' ' << vals[idx]->pol << '\n';
+	}
+
+	// IF (sel == k) x = a;  chains over a UInt selector with repeated k values; every intermediate x is a value of its own (a tap),
+	// so compare-selected mux chains with observed intermediate results are formed (Circuit::mergeBinaryMuxChain and friends)
+	int genIfChain(bool dag) {
+		size_t ws = rng.range(1, 3);
+		size_t w = wide && rng.chance(1, 3) ? genWidth(1, 200) : rng.range(1, 9);
+		int sel = operand('u', dag, ws);
+		int d = operand('u', dag, w);
+		size_t n = rng.range(2, 6);
+		int depth = std::max(V(sel).depth, V(d).depth) + 1;
+		UInt x = *V(d).u;
+		std::vector<int> args{sel, d};
+		std::vector<uint64_t> ks;
+		int last = -1;
+		try {
+			for (size_t j = 0; j < n; j++) {
+				int a = operand('u', dag, w);
+				uint64_t k = (!ks.empty() && rng.chance(1, 3)) ? ks[rng.below(ks.size())] : rng.below(size_t(1) << ws);
+				depth = std::max(depth, V(a).depth + 1);
+				IF (*V(sel).u == k)
+					x = *V(a).u;
+				args.push_back(a); ks.push_back(k);
+				UInt tap = x;
+				last = push(tap, 'u', depth);
+				emitVal(last, "ifchain", args, ks);
+			}
+		} catch (const gtry::utils::DesignError &) { failed = true; o << "v " << vals.size() << " ifchain -> e\n"; return -1; }
+		catch (const gtry::utils::InternalError &) { failed = true; o << "v " << vals.size() << " ifchain -> E\n"; return -1; }
+		return last;
+	}
+
+	// IF (c1) x = a1; IF (c2) x = a2; …  — a priority select where later conditions override earlier ones
+	int genIfPrio(bool dag) {
+		size_t w = wide && rng.chance(1, 3) ? genWidth(1, 200) : rng.range(1, 9);
+		int d = operand('u', dag, w);
+		size_t n = rng.range(2, 5);
+		int depth = V(d).depth + 1;
+		UInt x = *V(d).u;
+		std::vector<int> args{d};
+		int last = -1;
+		try {
+			for (size_t j = 0; j < n; j++) {
+				int c = operand('b', dag);
+				int a = operand('u', dag, w);
+				depth = std::max(depth, std::max(V(a).depth, V(c).depth) + 1);
+				IF (*V(c).b)
+					x = *V(a).u;
+				args.push_back(c); args.push_back(a);
+				UInt tap = x;
+				last = push(tap, 'u', depth);
+				emitVal(last, "ifprio", args, {});
+			}
+		} catch (const gtry::utils::DesignError &) { failed = true; o << "v " << vals.size() << " ifprio -> e\n"; return -1; }
+		catch (const gtry::utils::InternalError &) { failed = true; o << "v " << vals.size() << " ifprio -> E\n"; return -1; }
+		return last;
+	}
+
 	int genOp(bool dag, bool allowMalformed) {
+		if (!constMode && rng.chance(1, dag ? 7 : 14)) return rng.chance(2, 3) ? genIfChain(dag) : genIfPrio(dag);
 		unsigned cat = (unsigned)rng.below(100);
 		if (cat < 30) { // binary with policies
 			char t = pickVecType();
@@ -721,6 +787,8 @@ static void runCase(uint64_t caseSeed, size_t id, const std::string &mode, size_
 	DesignScope design;
 	Builder b(rng, o);
 	bool conc = mode == "conc" || mode == "concw";
+	// one in three DAG cases is simulated a second time after design.postprocess() on the same stimuli (users simulate post-processed designs)
+	bool post = (mode == "dag" || mode == "dags") && rng.chance(1, 3);
 	b.constMode = mode == "const";
 	b.wide = !(mode == "conc") && !(mode == "dags");
 	b.beyond = !conc && !b.constMode;
@@ -740,6 +808,21 @@ static void runCase(uint64_t caseSeed, size_t id, const std::string &mode, size_
 	std::map<hlim::Node_Pin*, int> pinIdx;
 	std::vector<int> pins;
 	for (size_t i = 0; i < b.vals.size(); i++) if (b.vals[i]->pin) { pinIdx[b.vals[i]->pin] = (int)i; pins.push_back((int)i); }
+	// post cases: every expression value is tapped by an output pin, so that it survives post-processing and stays observable
+	std::vector<hlim::Node_Pin*> taps(b.vals.size(), nullptr);
+	std::vector<std::unique_ptr<OutputPin>> tapBit;
+	std::vector<std::unique_ptr<OutputPins>> tapVec;
+	if (post)
+		for (size_t i = 0; i < b.vals.size(); i++) {
+			auto &v = *b.vals[i];
+			if (v.w == 0) continue;
+			switch (v.t) {
+				case 'b': tapBit.push_back(std::make_unique<OutputPin>(pinOut(*v.b))); taps[i] = tapBit.back()->node(); break;
+				case 'u': tapVec.push_back(std::make_unique<OutputPins>(pinOut(*v.u))); taps[i] = tapVec.back()->node(); break;
+				case 's': tapVec.push_back(std::make_unique<OutputPins>(pinOut(*v.s))); taps[i] = tapVec.back()->node(); break;
+				default:  tapVec.push_back(std::make_unique<OutputPins>(pinOut(*v.v))); taps[i] = tapVec.back()->node(); break;
+			}
+		}
 	bool known = net.dump(o, pinIdx);
 	o << "xo";
 	for (auto &v : b.vals) o << ' ' << (v->port.node ? net.index[v->port.node] : -1);
@@ -787,6 +870,8 @@ static void runCase(uint64_t caseSeed, size_t id, const std::string &mode, size_
 		o << "cteval done\n";
 	}
 
+	std::vector<std::vector<std::string>> allStim;
+	bool simOk = false;
 	try {
 		vh::Sim sim(design.getCircuit());
 		std::vector<std::string> absStim;
@@ -810,6 +895,7 @@ static void runCase(uint64_t caseSeed, size_t id, const std::string &mode, size_
 				absStim = stim;
 				o << "stim " << s << '\n';
 			}
+			allStim.push_back(stim);
 			for (size_t k = 0; k < pins.size(); k++) {
 				auto &v = *b.vals[pins[k]];
 				if (v.w) sim.set(v.pin, stim[k]);
@@ -829,8 +915,34 @@ static void runCase(uint64_t caseSeed, size_t id, const std::string &mode, size_
 				break;
 			}
 		}
+		simOk = true;
 	} catch (const std::exception &e) {
 		o << "simerr " << e.what() << '\n';
+	}
+	if (post && simOk) {
+		// the same design after post-processing, the same stimuli: only the tapped values are observable (net.order is stale now)
+		o << "post\n";
+		bool ok = true;
+		try { design.postprocess(); }
+		catch (const std::exception &e) { std::string m = e.what(); for (auto &c : m) if (c == '\n') c = ' '; o << "posterr " << m.substr(0, 200) << '\n'; ok = false; }
+		if (ok) {
+			try {
+				vh::Sim sim2(design.getCircuit());
+				for (size_t s = 0; s < allStim.size(); s++) {
+					for (size_t k = 0; k < pins.size(); k++) {
+						auto &v = *b.vals[pins[k]];
+						if (v.w) sim2.set(v.pin, allStim[s][k]);
+					}
+					sim2.eval();
+					o << "pxv " << s;
+					for (size_t i = 0; i < b.vals.size(); i++) o << ' ' << (taps[i] ? sim2.getPin(taps[i]) : std::string("?"));
+					o << '\n';
+				}
+			} catch (const std::exception &e) {
+				std::string m = e.what(); for (auto &c : m) if (c == '\n') c = ' ';
+				o << "posterr simulation: " << m.substr(0, 200) << '\n';
+			}
+		}
 	}
 	o << "end\n";
 }
